@@ -69,8 +69,8 @@ def walk (args : List String) : IO String := do
                 else
                   ok := ok + 1
                   if !okTypes.contains ty then okTypes := okTypes ++ [ty]
-            rest := rest.drop consumed
-            pos := pos + consumed
+            rest := rest.drop (if sized then size else consumed)
+            pos := pos + (if sized then size else consumed)
       let verdict := if problems.isEmpty then "ok" else "fail"
       return s!"{verdict} n={h.numBlocks} decoded={ok} noschema={noSchema} problems={problems.take 6} types={",".intercalate okTypes}"
   | _ => return "bad-op"
